@@ -143,6 +143,8 @@ pub struct HistKnobs {
     pub min_ops: usize,
     pub update_heavy: bool,
     pub long_thread_texts: bool,
+    /// dedicated run: the history starts with a sentence of more than 2^20 bytes (or characters)
+    pub mega: bool,
     pub max_clients: usize,
     pub min_clients: usize,
     pub model: ModelKnobs,
@@ -151,7 +153,7 @@ pub struct HistKnobs {
 
 impl HistKnobs {
     pub fn for_focus(focus: Focus) -> Self {
-        Self { focus, max_ops: 24, min_ops: 1, update_heavy: false, long_thread_texts: false, max_clients: 4, min_clients: 1, model: ModelKnobs::default(), max_text: 1_200_000 }
+        Self { focus, max_ops: 24, min_ops: 1, update_heavy: false, long_thread_texts: false, mega: false, max_clients: 4, min_clients: 1, model: ModelKnobs::default(), max_text: 1_200_000 }
     }
     pub fn miri() -> Self {
         Self {
@@ -160,6 +162,7 @@ impl HistKnobs {
             min_ops: 1,
             update_heavy: false,
             long_thread_texts: false,
+            mega: false,
             max_clients: 3,
             min_clients: 2,
             model: ModelKnobs { max_window: 2, max_type_window: 1, core_only: true, extreme_values: false, allow_big_windows: false, max_entries: 3, want_tags: None },
@@ -382,10 +385,27 @@ pub fn gen_plan(rng: &mut Rng, k: &HistKnobs) -> HistPlan {
         let w_ctor = rng.range(0, 6);
         let w_reset = rng.range(0, 12);
         let w_predict = if k.focus == Focus::C05 { rng.range(2, 25) } else { rng.range(10, 40) };
-        let w_fill = rng.range(0, 25);
+        let w_fill = if k.mega { 40 } else { rng.range(0, 25) };
         let w_filter = rng.range(0, 15);
         let w_setb = rng.range(0, 8);
         let w_sett = rng.range(0, 8);
+        if k.mega {
+            // a sentence of 360 000-420 000 characters (> 2^20 bytes) or of 1.05-1.15 million
+            // characters (> 2^20 characters), raw or tagged, predicted and tagged; the short
+            // random history that follows decides what is observed afterwards
+            let n = if rng.chance(1, 2) { rng.range(360_000, 420_000) } else { rng.range(1_050_000, 1_150_000) };
+            let chars: Vec<char> = (0..n).map(|_| gen::gen_char(rng)).collect();
+            if rng.chance(1, 3) {
+                let a = gen::gen_annotated_over(rng, chars, false);
+                ops.push(Op::UpdateTokenized { s: gen::render_tokenized(&a), expect: None });
+            } else {
+                ops.push(Op::UpdateRaw { s: chars.into_iter().collect(), owned: rng.chance(1, 2) });
+            }
+            ops.push(Op::Predict(rng.below(preds.len())));
+            if rng.chance(2, 3) {
+                ops.push(Op::FillTags);
+            }
+        }
         while ops.len() < n_ops {
             match rng.weighted(&[w_update, w_ctor, w_reset, w_predict, w_fill, w_filter, w_setb, w_sett]) {
                 0 => {
